@@ -1,6 +1,7 @@
 """C20 - order parameters respect the symmetries of what they measure."""
 
 import math
+import os
 
 import numpy as np
 from hypothesis import strategies as st
@@ -173,15 +174,30 @@ def body_pair(rec, c):
                 eng = _StubEngine.make({"plain": (pos, vel, None), "shifted": (pos + shift, vel, None)})
                 eng.order_function = op
                 vals = []
-                for fname in ("plain", "shifted"):
-                    sy = System()
-                    sy.config, sy.vel_rev, sy.box = (fname, 0), False, box.copy()
-                    try:
-                        vals.append(float(eng.calculate_order(sy)[0]))
-                    except Exception as exc:  # noqa: BLE001
-                        raise Violation(f"pair:{name}:engine-file-without-box:raises:{type(exc).__name__}", repr(exc))
+                try:
+                    for fname in ("plain", "shifted"):
+                        sy = System()
+                        sy.config, sy.vel_rev, sy.box = (eng.files[fname], 0), False, box.copy()
+                        try:
+                            vals.append(float(eng.calculate_order(sy)[0]))
+                        except Exception as exc:  # noqa: BLE001
+                            raise Violation(f"pair:{name}:engine-file-without-box:raises:{type(exc).__name__}", repr(exc))
+                finally:
+                    eng.close()
                 rec.check(close(vals[0], base, scale) and close(vals[1], base, scale + 3 * Lmax), f"pair:{name}:image-shift:through-calculate_order-on-a-file-without-box",
                           f"direct {base}; via engine {vals[0]}; via engine with shifted images {vals[1]}")
+            # the same parameter object on the same system after the box was updated in place (pressure coupling: engines
+            # write the new lengths into the array they hold): the value is the one a fresh object gives for the new box
+            if periodic:
+                sy = mk_system(pos, vel, box.copy())
+                try:
+                    op.calculate(sy)
+                    sy.box[:3] = np.where(np.isinf(L), L, L * 0.61)
+                    again = float(op.calculate(sy)[0])
+                    fresh = float((Distance if name == "Distance" else Distancevel)((i, j), periodic=True).calculate(mk_system(pos, vel, sy.box.copy()))[0])
+                except Exception as exc:  # noqa: BLE001
+                    raise Violation(f"pair:{name}:box-updated-in-place:raises:{type(exc).__name__}", repr(exc))
+                rec.check(close(again, fresh, scale), f"pair:{name}:stale-box-after-in-place-update", f"same object {again}, fresh object {fresh}, box now {sy.box.tolist()}")
             # velocity reversal
             rv = calc(op, pos, -vel, box)
             if name == "Distance":
@@ -235,7 +251,7 @@ class _StubEngine:
                     raise NotImplementedError
 
                 def _read_configuration(self, filename):
-                    p, v, b = self.store[filename]
+                    p, v, b = self.store[os.path.basename(filename)]
                     return p.copy(), v.copy(), None if b is None else b.copy(), None
 
                 def _reverse_velocities(self, filename, outfile):
@@ -244,6 +260,16 @@ class _StubEngine:
             cls._cls = Stub
         e = cls._cls()
         e.store = store
+        # the configuration "files" exist on disk (an engine may look at them before it reads them); the caller closes the engine
+        from vlib import isolate
+
+        e._dir = isolate.mkscratch("c20_")
+        e.close = lambda: isolate.rmscratch(e._dir)
+        e.files = {}
+        for name in store:
+            e.files[name] = os.path.join(e._dir, name)
+            with open(e.files[name], "w") as fh:
+                fh.write(f"{name}\n")
         return e
 
 
@@ -292,10 +318,8 @@ def body_single(rec, c):
                 return float(op.calculate(s)[0])
             except Exception as exc:
                 raise Violation(f"single:{c['op']}:direct:raises:{type(exc).__name__}", repr(exc))
-        eng = _StubEngine.make({"conf": (pos, vel, box)})
-        eng.order_function = op
         s = System()
-        s.config = ("conf", 0)
+        s.config = (eng.files["conf"], 0)
         s.vel_rev = vel_rev
         try:
             if c["via"] == "engine-arrays":
@@ -304,7 +328,18 @@ def body_single(rec, c):
         except Exception as exc:
             raise Violation(f"single:{c['op']}:{c['via']}:raises:{type(exc).__name__}", repr(exc))
 
-    fwd, rev = ev(False), ev(True)
+    eng = None
+    if c["via"] != "direct":
+        # one engine object and one unchanged configuration file for all evaluations of the case
+        eng = _StubEngine.make({"conf": (pos, vel, box)})
+        eng.order_function = op
+    try:
+        fwd, rev = ev(False), ev(True)
+        rev2, fwd2 = ev(True), ev(False)
+    finally:
+        if eng is not None:
+            eng.close()
+    rec.check(rev2 == rev and fwd2 == fwd, f"single:{c['op']}:repeated-evaluation-differs:{c['via']}", f"forward {fwd} then {fwd2}; reversed {rev} then {rev2}")
     rec.check(close(fwd, want, 10), f"single:{c['op']}:value", f"via {c['via']}: got {fwd} want {want}")
     if veltype:
         rec.check(close(rev, -want, 10), f"single:{c['op']}:sign-under-velocity-reversal:{c['via']}", f"fwd {fwd} rev {rev}")
